@@ -98,3 +98,62 @@ Lemma image_ext : forall K d d' j, nblk d' = nblk d ->
 Proof.
   intros K d d' j En H. unfold image. rewrite En. f_equal. apply map_ext. intros b. unfold img. now rewrite H.
 Qed.
+
+(** ** reads under an injected fault: whatever happens, only location entries are memoised *)
+Lemma lookup_memo : forall d b, 1 <= nf d -> loc_ok d ->
+  let '(t, l) := lookup d b in memo d (set_loc d l).
+Proof.
+  intros d b Hnf Hok.
+  destruct (Nat.lt_ge_cases b (nblk d)) as [Hb|Hb].
+  - pose proof (lookup_spec 1 d b Hnf Hok Hb) as HL.
+    destruct (lookup d b) as [t l]. destruct HL as (_ & Hok1 & Hl1 & Hl2).
+    repeat split; auto. intros x. destruct (Nat.eq_dec x b) as [->|Hx]; [exact Hl2| left; now apply Hl1].
+  - unfold lookup. destruct (Nat.leb_spec (nblk d) b); [|lia].
+    destruct d; apply memo_refl; exact Hok.
+Qed.
+
+Lemma memo_pre : forall d d', memo d d' -> 1 <= nf d -> 1 <= nf d' /\ loc_ok d'.
+Proof. intros d d' (E1&_&_&_&_&_&_&_&_&_&H) Hnf. split; [lia|exact H]. Qed.
+
+Lemma fr_loop_memo : forall i cnt d target b, 1 <= nf d -> loc_ok d ->
+  memo d (snd (fr_loop d i target cnt b)).
+Proof.
+  intros i cnt. induction cnt as [|cnt IH]; intros d target b Hnf Hok; cbn [fr_loop].
+  - cbn [snd]. now apply memo_refl.
+  - pose proof (lookup_memo d b Hnf Hok) as HL. destruct (lookup d b) as [nt l].
+    destruct (memo_pre _ _ HL Hnf) as (Hnf1 & Hok1).
+    destruct (nt =? target).
+    + eapply memo_trans; [exact HL|]. now apply IH.
+    + destruct (hit i target); [exact HL|].
+      eapply memo_trans; [exact HL|]. now apply IH.
+Qed.
+
+Lemma full_read_fault_memo : forall d i cnt b, 1 <= nf d -> loc_ok d ->
+  memo d (snd (full_read_fault d i cnt b)).
+Proof.
+  intros d i cnt b Hnf Hok. destruct cnt as [|cnt]; cbn [full_read_fault].
+  - cbn [snd]. now apply memo_refl.
+  - pose proof (lookup_memo d b Hnf Hok) as HL. destruct (lookup d b) as [t l].
+    destruct (memo_pre _ _ HL Hnf) as (Hnf1 & Hok1).
+    eapply memo_trans; [exact HL|]. now apply fr_loop_memo.
+Qed.
+
+Theorem read_at_fault_memo : forall K d off len i, 1 <= nf d -> loc_ok d ->
+  memo d (snd (read_at_fault K d off len i)).
+Proof.
+  intros K d off len i Hnf Hok. unfold read_at_fault.
+  destruct (len =? 0); [now apply memo_refl|].
+  destruct ((off mod K =? 0) && ((len + off) mod K =? 0)); [now apply full_read_fault_memo|].
+  pose proof (full_read_fault_memo d i 1 (off / K) Hnf Hok) as M1.
+  destruct (full_read_fault d i 1 (off / K)) as [f1 d1]. cbn [snd] in M1.
+  destruct f1; [exact M1|].
+  destruct (len <=? K - off mod K); [exact M1|].
+  destruct (memo_pre _ _ M1 Hnf) as (Hnf1 & Hok1).
+  pose proof (full_read_fault_memo d1 i ((len - (len + off) mod K - (K - off mod K)) / K) ((off + (K - off mod K)) / K) Hnf1 Hok1) as M2.
+  destruct (full_read_fault d1 i ((len - (len + off) mod K - (K - off mod K)) / K) ((off + (K - off mod K)) / K)) as [f2 d2].
+  cbn [snd] in M2.
+  destruct f2; [eapply memo_trans; eassumption|].
+  destruct ((len + off) mod K =? 0); [eapply memo_trans; eassumption|].
+  destruct (memo_pre _ _ M2 Hnf1) as (Hnf2 & Hok2).
+  eapply memo_trans; [exact M1|]. eapply memo_trans; [exact M2|]. now apply full_read_fault_memo.
+Qed.
